@@ -13,8 +13,25 @@ theorem cmp_size (a b : Int) : cmpOp Gen.Row.guardSizeOp a b = some (decide (a <
 theorem cmp_len (a b : Int) : cmpOp Gen.Row.guardLenOp a b = some (decide (a ≠ b)) := by
   simp [cmpOp, Gen.Row.guardLenOp]
 
-theorem cmp_cap (a b : Int) : cmpOp Gen.Row.capOp a b = some (decide (a > b)) := by
-  simp [cmpOp, Gen.Row.capOp]
+/-- The size test of `as_bytes` (`record_size <capOp> MAXIMUM_RECORD_SIZE`, operator and constant extracted) as a
+proposition.  The framing lemmas below need only two facts about it: the operator is one of the two that refuse
+everything *above* the constant, and the constant is below `2^31` (so an emitted length survives the decoder's C `int`).
+*Which* of the two operators and *which* constant is the business of the named theorems of `Props/C01.lean`
+(`encode_total`, `as_bytes_accepts_iff_payload_le_limit`, `nbytes_reaches_the_guard`): a change of either breaks those,
+not the lemmas here. -/
+def overCap (len : Nat) : Prop :=
+  if Gen.Row.capOp = ">=" then len ≥ Gen.Row.maxRecord else len > Gen.Row.maxRecord
+
+instance (len : Nat) : Decidable (overCap len) := by unfold overCap; infer_instance
+
+theorem capOp_known : Gen.Row.capOp = ">" ∨ Gen.Row.capOp = ">=" := by decide
+
+theorem cap_small : Gen.Row.maxRecord < 2147483648 := by decide
+
+theorem overCap_of_big {len : Nat} (h : len ≥ 2147483648) : overCap len := by
+  have := cap_small
+  unfold overCap
+  split <;> omega
 
 theorem or4 (a b c d : Nat) (hb : b < 256) (hc : c < 256) (hd : d < 256) :
     (((0 ||| a <<< 24) ||| b <<< 16) ||| c <<< 8) ||| d <<< 0 = a * 16777216 + b * 65536 + c * 256 + d := by
@@ -153,21 +170,35 @@ theorem frameBytes_eq (len ts : Nat) (payload : Bytes) :
 /-- What `as_bytes` decides from the payload length and the clock. -/
 theorem frameDecision_eq (ts len : Nat) :
     frameDecision ts len =
-      if len > 16777216 then some .tooLarge
+      if overCap len then some .tooLarge
       else if len ≥ 4294967296 ∨ ts ≥ 18446744073709551616 then some .overflow
       else none := by
   have h4 : (256 : Nat) ^ 4 = 4294967296 := by decide
   have h8 : (256 : Nat) ^ 8 = 18446744073709551616 := by decide
-  simp only [frameDecision, cmp_cap, Gen.Row.maxRecord, Gen.Row.lenWidth, Gen.Row.tsWidth, h4, h8]
-  by_cases h : len > 16777216
-  · have : (16777216 : Int) < (len : Int) := by omega
-    simp [h, this]
-  · have : (len : Int) ≤ 16777216 := by omega
-    simp [h, this]
+  simp only [frameDecision, Gen.Row.lenWidth, Gen.Row.tsWidth, h4, h8]
+  rcases capOp_known with hop | hop
+  · have e : cmpOp Gen.Row.capOp (len : Int) (Gen.Row.maxRecord : Int) = some (decide ((len : Int) > (Gen.Row.maxRecord : Int))) := by
+      rw [hop]; simp [cmpOp]
+    have ho : overCap len ↔ len > Gen.Row.maxRecord := by unfold overCap; rw [hop]; simp
+    rw [e]
+    by_cases h : len > Gen.Row.maxRecord
+    · have : ((Gen.Row.maxRecord : Nat) : Int) < (len : Int) := by omega
+      rw [if_pos (ho.2 h)]; simp [this]
+    · have : ¬ ((Gen.Row.maxRecord : Nat) : Int) < (len : Int) := by omega
+      rw [if_neg (fun hh => h (ho.1 hh))]; simp [this]
+  · have e : cmpOp Gen.Row.capOp (len : Int) (Gen.Row.maxRecord : Int) = some (decide ((len : Int) ≥ (Gen.Row.maxRecord : Int))) := by
+      rw [hop]; simp [cmpOp]
+    have ho : overCap len ↔ len ≥ Gen.Row.maxRecord := by unfold overCap; rw [hop]; simp
+    rw [e]
+    by_cases h : len ≥ Gen.Row.maxRecord
+    · have : ((Gen.Row.maxRecord : Nat) : Int) ≤ (len : Int) := by omega
+      rw [if_pos (ho.2 h)]; simp [this]
+    · have : ¬ ((Gen.Row.maxRecord : Nat) : Int) ≤ (len : Int) := by omega
+      rw [if_neg (fun hh => h (ho.1 hh))]; simp [this]
 
-/-- What an emitted record looks like. -/
+/-- What an emitted record looks like (its length survives the decoder's 32-bit signed read). -/
 theorem encodeFrame_ok {ts : Nat} {payload r : Bytes} (h : encodeFrame ts payload = .ok r) :
-    payload.length ≤ 16777216 ∧ r = header payload.length ts ++ payload := by
+    payload.length < 2147483648 ∧ r = header payload.length ts ++ payload := by
   unfold encodeFrame at h
   rw [frameDecision_eq, frameBytes_eq] at h
   split at h
@@ -178,7 +209,10 @@ theorem encodeFrame_ok {ts : Nat} {payload r : Bytes} (h : encodeFrame ts payloa
     split at he
     · cases he
     · rename_i h1
-      exact ⟨by omega, h.symm⟩
+      refine ⟨?_, h.symm⟩
+      by_cases hb : payload.length ≥ 2147483648
+      · exact absurd (overCap_of_big hb) h1
+      · omega
 
 theorem wrap32_len4_eq {l0 l1 l2 l3 : UInt8} {len : Nat} (hlen : len < 2147483648)
     (h : wrap32 (len4 l0 l1 l2 l3) = (len : Int)) :
